@@ -476,4 +476,16 @@ example :
     verify (mk [b!"host"] [b!"app"] (some [.var (b!"app")])) = false ∧
       (construct (mk [b!"host"] [b!"app"] (some [.var (b!"app")]))).toOption.isNone = true := by decide
 
+
+open CfgFile in
+/-- **C16 (a syslog input).** An input section that `VerifyConfig` accepts gives every connection its parser and its
+extraction transforms without reaching `MustNewParser`'s panic (level mapping of the wrong length, a parser field the
+schema lacks) or a `Must…` site of an extraction step. -/
+theorem C16_input_verify_sound (sch : Cfg.Schema) (i : Input) (h : inputOK sch i = true) :
+    ∃ prog, constructInput sch i = .ok prog := by
+  simp only [inputOK, Bool.and_eq_true] at h
+  obtain ⟨⟨_, hp⟩, hs⟩ := h
+  obtain ⟨prog, nx, h1, _⟩ := C16_verify_sound sch i.extractions hs
+  exact ⟨prog, by simp [constructInput, hp, h1]⟩
+
 end C16
